@@ -30,12 +30,51 @@ def run(run: Run):
         specs.append({"id": f"c18-{i}", "group": grp, "members": [mem], "log_merlin": False, "log_msm": False, "with_gens": False,
                       "derived": [{"from": 0, "ops": [{"op": "scalar_add", "field": "s1", "hex": gen.hx(1)}]}],
                       "verifies": [{"mode": md, "vmembers": [gen.vmember(mem, p)]} for md in ("RecoverAndVerify", "VerifyOnly", "RecoverOnly") for p in (0, 1)]})
+    # identical calls interleaved with calls that end early with an error (malformed member in the middle of a batch, undecodable point,
+    # wrong round count, mismatched statement): the identical calls must keep returning the same result on the same thread
+    for i, (b, m, T, grp) in enumerate([(2, 1, 1, "fm"), (4, 2, 2, "ristretto"), (8, 1, 3, "fm")] if quick else
+                                       [(2, 1, 1, "fm"), (4, 2, 2, "ristretto"), (8, 1, 3, "fm"), (2, 2, 1, "ristretto"), (16, 1, 2, "ristretto"), (1, 4, 6, "fm")]):
+        m0 = gen.mk_member(rng, b, m, cap=m, T=T, seed=(m == 1))
+        m1 = gen.mk_member(rng, b, m, cap=2 * m, T=T)
+        big = gen.mk_member(rng, b, 2 * m, cap=2 * m, T=T)
+        derived = [{"from": 1, "ops": [{"op": "point_set", "field": "a1", "idx": 0, "to": {"undecodable": 7}}]},
+                   {"from": 1, "ops": [{"op": "dup_round", "idx": 0}]} if b * m >= 2 else {"from": 1, "ops": [{"op": "scalar_add", "field": "r1", "hex": gen.hx(1)}]},
+                   {"from": 0, "ops": [{"op": "scalar_add", "field": "d1", "idx": 0, "hex": gen.hx(1)}]},
+                   {"from": 2, "ops": [{"op": "point_set", "field": "b", "idx": 0, "to": {"identity": True}}]}]
+        good = {"mode": "RecoverAndVerify", "vmembers": [gen.vmember(m0, 0), gen.vmember(m1, 1)]}
+        good2 = {"mode": "VerifyOnly", "vmembers": [gen.vmember(m1, 1), gen.vmember(big, 2), gen.vmember(m0, 0)]}
+        bads = [{"mode": "VerifyOnly", "vmembers": [gen.vmember(m0, 0), gen.vmember(m1, 3)]},
+                {"mode": "RecoverAndVerify", "vmembers": [gen.vmember(big, 2), gen.vmember(m1, 4), gen.vmember(m0, 0)]},
+                {"mode": "VerifyOnly", "vmembers": [gen.vmember(m1, 1), gen.vmember(m0, 5)]},
+                {"mode": "VerifyOnly", "vmembers": [gen.vmember(m0, 0), gen.vmember(big, 6), gen.vmember(m1, 1)]},
+                {"mode": "VerifyOnly", "vmembers": [gen.vmember(m0, 0), gen.vmember(m1, 1, bits=2 * b if b < 64 else b // 2)]}]
+        verifies, same = [], {"good": [], "good2": []}
+        for bad in bads:
+            for nm, g_ in (("good", good), ("good2", good2)):
+                same[nm].append(len(verifies))
+                verifies.append(copy.deepcopy(g_))
+            verifies.append(bad)
+        for nm, g_ in (("good", good), ("good2", good2)):
+            same[nm].append(len(verifies))
+            verifies.append(copy.deepcopy(g_))
+        specs.append({"id": f"c18-err-{i}", "group": grp, "members": [m0, m1, big], "derived": derived, "verifies": verifies, "log_merlin": False, "log_msm": False,
+                      "with_gens": False, "_same": same})
     alone = [run_harness(["session"], [s])[0] for s in specs]           # one fresh process per session
     together = run_harness(["session"], specs + specs)                   # one process: every session twice
     order = list(range(len(specs)))
     rng.shuffle(order)
     shuffled = run_harness(["session"], [specs[i] for i in order] + [specs[i] for i in reversed(order)])
     for i, s in enumerate(specs):
+        for nm, idxs in s.get("_same", {}).items():
+            for o_, where in ((alone[i], "fresh process"), (together[i], "one process"), (together[len(specs) + i], "one process, second pass")):
+                res = [(o_["verifies"][j]["result"], json.dumps(o_["verifies"][j].get("masks"))) for j in idxs]
+                run.count(["err-history", s["group"], i, nm, where], {"session": s["id"], "identical calls": len(idxs), "interleaved with": "calls that end with an error", "where": where})
+                run.bump("identical calls after error exits", len(idxs))
+                if len(set(res)) != 1 or res[0][0] != "ok":
+                    k_ = next(j for j, r_ in enumerate(res) if r_ != res[0] or r_[0] != "ok")
+                    run.violation(f"an identical verify_batch call returned a different result after an earlier call on the same thread ended with an error "
+                                  f"(call #{idxs[k_]}: {res[k_][0][:60]} vs first: {res[0][0][:30]}; {s['group']})", {"kind": "session", "spec": sessions.strip(s), "verify": idxs[k_]})
+                    break
         ref = essential(alone[i])
         variants = {"repeat in one process (1st)": together[i], "repeat in one process (2nd)": together[len(specs) + i],
                     "shuffled history": shuffled[order.index(i)], "reversed history": shuffled[len(specs) + list(reversed(order)).index(i)]}
